@@ -159,6 +159,9 @@ pub enum Op {
     /// perm bits: 1 delegate, 2 redelegate, 4 undelegate, 8 withdraw
     SetPermissions { by: Who, spender: Sp, perm: u8 },
     Advance { blocks: u8, secs: u16 },
+    /// cw1-subkeys only: the stored cw2 version is set to an older release (same storage layout) and
+    /// `migrate` runs - a code upgrade, which is not a call of any admin
+    Upgrade { from: u8 },
 }
 
 #[derive(Clone, Debug, Serialize, Deserialize, PartialEq)]
@@ -400,6 +403,7 @@ fn op_group(prop: &str, subkeys: bool) -> BoxedStrategy<Vec<Op>> {
         (w.decr, one((admin_who(), sp(), denom_decrease(), amt_decrease(), prop_oneof![4 => Just(None), 1 => exp_spec().prop_map(Some)]).prop_map(|(by, spender, denom, amt, exp)| Op::Decrease { by, spender, denom, amt, exp }).boxed())),
         (w.perm, one((admin_who(), sp(), perm_bits()).prop_map(|(by, spender, perm)| Op::SetPermissions { by, spender, perm }).boxed())),
         (w.adv, one((0u8..4, 0u16..40).prop_map(|(blocks, secs)| Op::Advance { blocks, secs }).boxed())),
+        (1, one((0u8..4).prop_map(|from| Op::Upgrade { from }).boxed())),
         (w.regrant, (any::<u16>(), (0u8..3).prop_map(Den::Ix), 1u128..500, prop_oneof![(1i32..4).prop_map(ExpSpec::Height), (1i64..15).prop_map(ExpSpec::Time)], 0u8..4, proptest::collection::vec(msg_spec(MsgWeights { send: 1, burn: 0, staking: 0, distr: 0, other: 0 }), 1..=2), 1u128..500, exp_spec())
             .prop_map(|(s, denom, g1, e1, adv, msgs, g2, e2)| {
                 vec![
@@ -566,7 +570,9 @@ impl World {
     fn new(subkeys: bool) -> World {
         let d = Direct::new();
         let mut senders: Vec<Addr> = (0..N_ACTORS).map(|i| d.api.addr_make(&format!("actor{i}"))).collect();
-        senders.push(d.api.addr_make("outsider"));
+        // the extra sender outside the actor pool is the proxy's own address: a contract can be its own
+        // admin and can call itself (address index N_ADDR names it in admin lists and message fields)
+        senders.push(d.contract.clone());
         let mut addrs: Vec<String> = senders[..N_ACTORS].iter().map(|a| a.to_string()).collect();
         addrs.push("x".to_string());
         addrs.push(senders[0].to_string().to_uppercase());
@@ -899,7 +905,8 @@ pub fn run_case(prop: &str, case: &Case, ctx: &mut CaseCtx) -> Result<(), Violat
     ctx.count(if case.subkeys { "cases_subkeys" } else { "cases_whitelist" });
 
     // ---------------- instantiate
-    let init_admins: Vec<String> = case.admins.iter().map(|i| w.addrs[*i as usize % N_ADDR].clone()).collect();
+    let addr_of = |i: u8| -> String { if i as usize == N_ADDR { w.d.contract.to_string() } else { w.addrs[i as usize % N_ADDR].clone() } };
+    let init_admins: Vec<String> = case.admins.iter().map(|i| addr_of(*i)).collect();
     {
         let info = Direct::info(&w.senders[N_ACTORS], &[]);
         let msg = InstantiateMsg { admins: init_admins.clone(), mutable: case.mutable };
@@ -929,6 +936,21 @@ pub fn run_case(prop: &str, case: &Case, ctx: &mut CaseCtx) -> Result<(), Violat
     for (step_no, op) in case.ops.iter().enumerate() {
         // ------------ resolve
         let step: Step = match op {
+            Op::Upgrade { from } => {
+                if !w.subkeys {
+                    continue;
+                }
+                let version = ["2.0.0", "1.1.2", "1.0.0", "0.16.0"][*from as usize % 4];
+                w.d.store.data.insert(b"contract_info".to_vec(), format!(r#"{{"contract":"crates.io:cw1-subkeys","version":"{version}"}}"#).into_bytes());
+                let r = w.d.tx(|deps, env| cw1_subkeys::contract::migrate(deps, env, Empty {}));
+                let post = w.observe().map_err(qerr)?;
+                ctx.count(if r.is_ok() { "op_Upgrade_ok" } else { "op_Upgrade_fail" });
+                if post.admins != pre.admins || post.mutable != pre.mutable || post.perms != pre.perms || post.allow != pre.allow {
+                    return Err(v(prop, "upgrade-changed-state", format!("step {step_no} Upgrade(from {version}) -> {:?}: a migration changed the admin list, allowances or permissions: admins {:?} -> {:?}, allowances {:?} -> {:?}, permissions {:?} -> {:?}", r.map(|_| ()), pre.admins, post.admins, pre.allow, post.allow, pre.perms, post.perms)));
+                }
+                pre = post;
+                continue;
+            }
             Op::Advance { blocks, secs } => {
                 w.d.advance(*blocks as u64, *secs as u64);
                 let post = w.observe().map_err(qerr)?;
@@ -964,7 +986,7 @@ pub fn run_case(prop: &str, case: &Case, ctx: &mut CaseCtx) -> Result<(), Violat
                 Step { call: Call::Execute(built), sender, target: None, kinds: msgs.iter().map(|m| m.kind()).collect() }
             }
             Op::Freeze { by } => Step { call: Call::Freeze, sender: resolve_who(by, &w, &pre, &t), target: None, kinds: vec![] },
-            Op::UpdateAdmins { by, admins } => Step { call: Call::UpdateAdmins(admins.iter().map(|i| w.addrs[*i as usize % N_ADDR].clone()).collect()), sender: resolve_who(by, &w, &pre, &t), target: None, kinds: vec![] },
+            Op::UpdateAdmins { by, admins } => Step { call: Call::UpdateAdmins(admins.iter().map(|i| if *i as usize == N_ADDR { w.d.contract.to_string() } else { w.addrs[*i as usize % N_ADDR].clone() }).collect()), sender: resolve_who(by, &w, &pre, &t), target: None, kinds: vec![] },
             Op::Increase { by, spender, denom, amt, exp } | Op::Decrease { by, spender, denom, amt, exp } => {
                 if !case.subkeys {
                     ctx.count("op_skipped_on_whitelist");
